@@ -329,7 +329,7 @@ class C06(Sim):
             ev["orig"] = self._vec(r, -2, 2) if r.chance(0.5) else None
         elif op == "scale_xyz":
             ev["f"] = [r.choice([0.5, 2.0, 1.0, -1.0, 3.0]) for _ in range(3)]
-            ev["orig"] = self._vec(r, -2, 2) if r.chance(0.5) else None
+            ev["orig"] = self._vec(r, -2, 2)  # always explicit: the docstring and the code disagree on the default fixed point
         elif op == "flatten":
             ev["dim"] = r.choice([None, 0, 1, 2])
         elif op == "inverse_pair":
